@@ -314,8 +314,12 @@ func classifyMember(cfg Config, raw []byte) Member {
 		switch {
 		case !cfg.AllowPush:
 			m.Reply, m.Codes = ErrorReply, []int{-32600}
+		case m.Class == Neither && m.HasID && ((cfg.Callback != nil && cfg.Callback(m.IDText)) || (cfg.MaybeCallback != nil && cfg.MaybeCallback(m.IDText))):
+			// it bears the id of an outstanding callback: taken for that callback's (empty) reply, or answered
+			m.Reply, m.DontCare = AnyReply, "member with neither method nor result/error that bears a callback id"
 		case m.Class == Neither:
-			m.Reply, m.DontCare = AnyReply, "member with neither method nor result/error on a push-enabled server"
+			// not reply-shaped: an invalid member like on any other server
+			m.Reply, m.Codes = ErrorReply, []int{-32600}
 		case m.HasID && cfg.Callback != nil && cfg.Callback(m.IDText):
 			m.Reply, m.Consumed = NoReply, true
 		default:
